@@ -19,6 +19,7 @@ import (
 	"strconv"
 
 	"rcproxy/core/codec"
+	"rcproxy/core/pkg/constant"
 	"rcproxy/core/pkg/errors"
 	"rcproxy/core/pkg/hashkit"
 	"rcproxy/core/pkg/logging"
@@ -76,8 +77,8 @@ func (rc *CRespCodec) Decode(c CConn) (*Msg, error) {
 	resp.Id = msgId
 	resp.Owner = c
 	resp.Type = codec.Transform2Type(msg, n)
-	resp.Body = make(map[int32]*Frag, n)
-	resp.Fd2Slot = make(map[int]int32, n)
+	resp.Body = make(map[int32]*Frag, sizeHint(n))
+	resp.Fd2Slot = make(map[int]int32, sizeHint(n))
 
 	switch resp.Type {
 	case codec.ReqMget:
@@ -117,7 +118,7 @@ func (rc *CRespCodec) Decode(c CConn) (*Msg, error) {
 }
 
 func (rc *CRespCodec) Frag1(c CConn, n int, resp *Msg, buf *codec.Buffer) error {
-	resp.Frags = make(map[int32][]string, n)
+	resp.Frags = make(map[int32][]string, sizeHint(n))
 	for i := 0; i < n; i++ {
 		msg, err := rc.parseLine(buf)
 		if err != nil {
@@ -139,7 +140,7 @@ func (rc *CRespCodec) Frag1(c CConn, n int, resp *Msg, buf *codec.Buffer) error 
 }
 
 func (rc *CRespCodec) Frag2(c CConn, n int, resp *Msg, buf *codec.Buffer) error {
-	resp.Frags2 = make(map[int32][][2]string, n/2)
+	resp.Frags2 = make(map[int32][][2]string, sizeHint(n/2))
 	for i := 0; i < n; i = i + 2 {
 		msg, err := rc.parseLine(buf)
 		if err != nil {
@@ -310,6 +311,16 @@ func (rc *CRespCodec) parseLine(buf *codec.Buffer) ([]byte, error) {
 	default:
 		return nil, codec.ErrInvalidResp
 	}
+}
+
+// sizeHint bounds a map size hint derived from the element count a client declared: the
+// maps are keyed by slot, so they never hold more than RedisClusterSlots entries, and the
+// declared count is not trustworthy before the elements have actually been read.
+func sizeHint(n int) int {
+	if n > constant.RedisClusterSlots {
+		return constant.RedisClusterSlots
+	}
+	return n
 }
 
 func (rc *CRespCodec) sizeTooLarge(size int) bool {
